@@ -126,6 +126,30 @@ class Engine(object):
                 if v.get("requires_thorough"):
                     v["requires"] = v["requires_thorough"]
 
+    def callee_ready(self, fq):
+        """may this contract be ASSUMED at a call site?  Not if a postcondition speaks about a field of a mutable
+        parameter that the contract does not declare as changed (havoc): assuming it would contradict the pre-state"""
+        cache = self.__dict__.setdefault("_callee_ready", {})
+        if fq not in cache:
+            ok = True
+            for k, c in self.contracts.items():
+                if k.split("#")[0] != fq:
+                    continue
+                if c.get("trace") or not (c.get("modifies") or []):
+                    continue
+                ens = list(self.norm_named(c.get("ensures"), "post"))
+                for cs in c.get("cases") or []:
+                    ens += self.norm_named(cs.get("ensures"), "post")
+                hav = set((c.get("havoc") or {}).keys())
+                fields = set()
+                for nm, ex in ens:
+                    for m in re.finditer(r"\b(self|fp)\.(\w+)", ex):
+                        fields.add(m.group(1) + "." + m.group(2))
+                if any(f not in hav and f != "fp.data" for f in fields):
+                    ok = False
+            cache[fq] = ok
+        return cache[fq]
+
     def rebound_globals(self, modname):
         """names a function of the module rebinds through a `global` statement"""
         cache = self.__dict__.setdefault("_rebound", {})
